@@ -298,14 +298,106 @@ func c07Paths(x *mc.Exec) {
 	c07Check(x, urlSchema(soft), raw, false)
 }
 
+// c07AfterEdits: "consistent with the schema" means the schema as it is NOW:
+// a URL is parsed, the same schema object is edited, and URLs are parsed again;
+// every result is compared with the result against a freshly built schema of
+// the same content (a parser that remembers field lists per schema object
+// would differ).
+func c07AfterEdits(x *mc.Exec) {
+	build := func(edits []int) *j.Schema {
+		flags := make([]bool, len(urlTypes))
+		for i := range flags {
+			flags[i] = true
+		}
+		s := BuildSchema(urlTypes, flags)
+		for _, e := range edits {
+			c07ApplyEdit(s, e)
+		}
+		return s
+	}
+	raws := []string{"/a", "/a?fields%5Ba%5D=x,y&sort=y", "/a/1/rr?include=s", "/a?fields%5Ba%5D=w,x&sort=-w", "/b?include=r", "/a?include=r2,r&fields%5Ba%5D=r2"}
+	live := build(nil)
+	var edits []int
+	desc := ""
+	for step := 0; step < 3; step++ {
+		raw := raws[x.Choose(len(raws), "url")]
+		got, gerr, gp, _ := ParseURL(x, live, raw, false)
+		want, werr, wp, _ := ParseURL(x, build(edits), raw, false)
+		x.R.Add("transitions", 2)
+		desc += "parse " + raw + "; "
+		if gp != "" || wp != "" {
+			x.Fail("C07:after-edits:panic", "%s panicked: %s %s", desc, gp, wp)
+			return
+		}
+		if (gerr == nil) != (werr == nil) {
+			x.Fail("C07:after-edits:acceptance", "%s: the edited schema object answers error=%v, an equal fresh schema error=%v", desc, gerr, werr)
+			return
+		}
+		if gerr == nil {
+			if d := diffViews(viewOf(want), viewOf(got)); d != "" {
+				x.Fail("C07:after-edits:stale", "%s: against the edited schema object the URL differs from the one against an equal fresh schema: %s", desc, d)
+				return
+			}
+			if clause, msg := c07JudgeEdited(raw, got, live); clause != "" {
+				x.Fail("C07:after-edits:"+clause, "%s: %s", desc, msg)
+				return
+			}
+		}
+		e := x.Choose(c07NEdits, "edit")
+		c07ApplyEdit(live, e)
+		edits = append(edits, e)
+		desc += c07EditNames[e] + "; "
+	}
+	x.Render(desc)
+	x.R.Mark("nontrivial", mc.Hash(desc))
+	x.R.Sample("after-edits", desc)
+}
+
+var c07EditNames = []string{"none", "RemoveAttr(a.y)", "AddAttr(a.w)", "AddRel(a.r2->b)", "RemoveRel(a.rr)", "RemoveAttr(a.x)+AddAttr(a.x2)"}
+
+const c07NEdits = 6
+
+func c07ApplyEdit(s *j.Schema, e int) {
+	switch e {
+	case 1:
+		s.RemoveAttr("a", "y")
+	case 2:
+		_ = s.AddAttr("a", j.Attr{Name: "w", Type: j.AttrTypeInt})
+	case 3:
+		_ = s.AddRel("a", j.Rel{FromType: "a", FromName: "r2", ToOne: true, ToType: "b"})
+	case 4:
+		s.RemoveRel("a", "rr")
+	case 5:
+		s.RemoveAttr("a", "x")
+		_ = s.AddAttr("a", j.Attr{Name: "x2", Type: j.AttrTypeString})
+	}
+}
+
+// c07JudgeEdited: every name in the field selection of the resource type is a
+// field of the type as the schema holds it now.
+func c07JudgeEdited(raw string, u *j.URL, s *j.Schema) (string, string) {
+	for t, fs := range u.Params.Fields {
+		typ := s.GetType(t)
+		for _, f := range fs {
+			_, isA := typ.Attrs[f]
+			_, isR := typ.Rels[f]
+			if f != "id" && !isA && !isR {
+				return "stale-field", fmt.Sprintf("URL %s selects %q for type %q, which the schema no longer has", raw, f, t)
+			}
+		}
+	}
+	return "", ""
+}
+
 func init() {
 	Register(&Prop{
 		ID: "C07",
-		Rule: "Engine A: (a) every path of 0..6 fragments over per-position alphabets (types incl. one-attribute, field-less and self-referential ones, unknown word, percent-escape, malformed escape, id, 'relationships', 'meta', every relationship name) x 4 decorations x {soft, struct-backed} schema; (b) 16 representative paths x every ordered sequence with repetition of 0..2 (thorough 3) query parameters from a menu of ~100 instances (fields[] with valid/unknown/duplicate/id/empty lists for known, unknown and empty types; sort with repeats, '-', id, unknown names, empty items; include with names that are string prefixes of one another, unknown names, nested paths to depth 3, self-reference; page[]; filter labels, empty value, JSON trees, malformed JSON; unknown and malformed parameter names); the iteration order of the query-parameter map is a deviation-bounded choice (bound 1). Oracle: no panic, exactly one of (URL, error), and an independent reading of the request (net/url + the type table) for ResType, field selection, inclusion chains and sorting rules. Non-trivial = URL with >= 2 parameters / any path",
+		Rule: "Engine A: (a) every path of 0..6 fragments over per-position alphabets (types incl. one-attribute, field-less and self-referential ones, unknown word, percent-escape, malformed escape, id, 'relationships', 'meta', every relationship name) x 4 decorations x {soft, struct-backed} schema; (b) 16 representative paths x every ordered sequence with repetition of 0..2 (thorough 3) query parameters from a menu of ~100 instances (fields[] with valid/unknown/duplicate/id/empty lists for known, unknown and empty types; sort with repeats, '-', id, unknown names, empty items; include with names that are string prefixes of one another, unknown names, nested paths to depth 3, self-reference; page[]; filter labels, empty value, JSON trees, malformed JSON; unknown and malformed parameter names); the iteration order of the query-parameter map is a deviation-bounded choice (bound 1). (c) three parses interleaved with edits (RemoveAttr/AddAttr/AddRel/RemoveRel/rename) of the SAME schema object, each compared with a parse against a freshly built equal schema. Oracle: no panic, exactly one of (URL, error), and an independent reading of the request (net/url + the type table) for ResType, field selection, inclusion chains and sorting rules. Non-trivial = URL with >= 2 parameters / any path",
 		Assumptions: []string{"a valid requested inclusion path must be kept unless another REQUESTED path (valid or not) extends it by a dotted prefix (weaker reading)", "multiplicity of repeated inclusion paths is not judged"},
 		Harnesses: []Harness{
 			{Name: "C07/query", Body: c07Query, Dev: func() int { return 1 }},
 			{Name: "C07/paths", Body: c07Paths},
+			{Name: "C07/after-edits", Body: c07AfterEdits},
 		},
 	})
 }
